@@ -170,10 +170,10 @@ class Inst:
         r = self.rng
         k = d[0]
         if k == "u32":
-            x = r.randrange(1000)
+            x = 1 + r.randrange(999)
             return ["n", x], "%du32" % x
         if k == "string":
-            s = r.choice(["", "a", "hello", "x y"])
+            s = r.choice(["", "a", "hello", "x y", "veteran"])
             return ["s", s], '"%s".to_string()' % s
         if k == "vecu32":
             xs = [r.randrange(50) for _ in range(r.randint(0, 3))]
@@ -234,6 +234,24 @@ def generate(seed, ntypes, nvalues):
     g = G(rng)
     for i in range(ntypes):
         g.new_type(depth=2 if i > 3 else 0)
+    # shapes every run must contain (the random draw above only makes them likely)
+    def F(n, t, ren="", skip=False, more=""):
+        d = {"n": n, "t": [t], "ren": ren, "skip": skip}
+        if more:
+            d["more"] = more
+        return d
+    g.types.append({"k": "enum", "name": "TF1", "generic": False, "fields": [], "variants": [
+        {"n": "U0", "k": "unit", "ren": "unit_renamed", "fields": []},
+        {"n": "U1", "k": "unit", "ren": "", "fields": []},
+        {"n": "P0", "k": "tuple", "ren": "pair_renamed", "fields": [F("", "entity"), F("", "u32", skip=True), F("", "u32"), F("", "entity")]},
+        {"n": "N0", "k": "named", "ren": "", "fields": [F("keep", "u32", skip=True), F("who", "entity"), F("label", "string", skip=True),
+                                                        F("n", "u32"), F("opt", "optu32", skip=True)]},
+        {"n": "N1", "k": "named", "ren": "named_renamed", "fields": [F("a", "entity", ren="first", more="pre"), F("b", "entity", ren="second", more="post")]}]})
+    g.types.append({"k": "named", "name": "TF2", "generic": False, "variants": [], "fields": [
+        F("s0", "string", skip=True), F("e0", "entity", ren="owner", more="pre"), F("v0", "vecu32", skip=True), F("e1", "entity"),
+        F("p0", "pair", ren="coords", more="post")]})
+    g.types.append({"k": "tuple", "name": "TF3", "generic": False, "variants": [], "fields": [
+        F("", "u32", skip=True), F("", "entity"), F("", "u32", skip=True), F("", "u32"), F("", "entity")]})
     bytype = {t["name"]: t for t in g.types}
     inst = Inst(g, bytype)
     items = []       # (tid, resolved type, value, rust type expr, rust value expr)
